@@ -7,7 +7,7 @@ PROPERTY_RULES = {
     "C02": ["r_a6", "r_a4", "r_a8", "r_a2", "r_o3", "r_e1", "r_b1", "r_a13", "r_a14", "r_a16", "r_a17", "r_a18", "r_a9", "r_c6", "r_a20", "r_a21", "r_a23", "r_u1"],
     "C03": ["r_a2", "r_a3", "r_a8", "r_a14", "r_b1", "r_a17", "r_a4"],
     "C04": ["r_a8", "r_e1", "r_a6", "r_a2", "r_b1", "r_o3", "r_a4", "r_a17", "r_a18", "r_a21", "r_a23"],
-    "C05": ["r_b1", "r_o3", "r_a2", "r_a12"],
+    "C05": ["r_b1", "r_o3", "r_a2", "r_a12", "r_a3"],
     "C06": ["r_b1", "r_o3", "r_a2"],
     "C07": ["r_a12", "r_a13", "r_a2", "r_a9", "r_a11", "r_a8", "r_a25"],
     "C08": ["r_a11", "r_o3", "r_a2", "r_a4", "r_a8", "r_a12", "r_e2", "r_a15", "r_a22", "r_a25"],
@@ -94,7 +94,7 @@ CLAUSES = {
            "methods) a byte count handed to a cursor movement rests on an observation of that cursor that is still current, and an index into chunk() on fresh evidence of "
            "non-emptiness (C9); a has_remaining override of Take / Limit is true exactly where limit != 0 and the inner buffer has bytes left. Not decided: whether a loop of judged transfers in a new override ends at the right moment (sum of transfers = min(available, total requested))",
     "C05": "free/take-over decisions are taken on the result of the atomic RMW itself (fetch_sub == 1; CAS 1->0; publishing CAS of a fresh control block "
-           "whose loser uses the winner's value); every take-over is dominated by a uniqueness test",
+           "whose loser uses the winner's value); every take-over is dominated by a uniqueness test; the owner given to from_owner is `Send + 'static` (A3: the bound is what makes moving owner-backed handles to other threads sound)",
     "C06": "every atomic site has at least the ordering its role requires (decrement >= Release; Acquire before free; Acquire uniqueness test before "
            "take-over; publishing CAS Release/Acquire; dereferenced loads of a mutable data pointer >= Acquire) and every take-over event is dominated "
            "by such a test locally or at all call sites",
